@@ -60,3 +60,16 @@ impl PrivKey {
         })
     }
 }
+
+#[cfg(gufo_snmp_verif)]
+impl PrivKey {
+    /// Verification hook (compiled only with `--cfg gufo_snmp_verif`):
+    /// place the salt counter of the underlying key.
+    pub fn verif_set_salt(&mut self, value: u64) {
+        match self {
+            PrivKey::NoPriv(_) => {}
+            PrivKey::Des(k) => k.verif_set_salt(value),
+            PrivKey::Aes128(k) => k.verif_set_salt(value),
+        }
+    }
+}
